@@ -1,5 +1,5 @@
 use crate::{
-  managed::{DebugHeap, DebugWrap, Trace}, reference::Object, value::Value
+  managed::{DebugHeap, DebugWrap, Trace}, reference::Object, utils::fmt_nested, value::Value
 };
 use fmt::Display;
 use fnv::FnvBuildHasher;
@@ -94,9 +94,13 @@ impl<K: Display, V: Display> Display for Map<K, V> {
   fn fmt(&self, f: &mut fmt::Formatter<'_>) -> fmt::Result {
     write!(f, "{{")?;
 
-    for (key, val) in self.iter() {
-      write!(f, "{key}: {val}")?;
-    }
+    fmt_nested(f, self as *const Self as usize, |f| {
+      for (key, val) in self.iter() {
+        write!(f, "{key}: {val}")?;
+      }
+
+      Ok(())
+    })?;
 
     write!(f, "}}")
   }
